@@ -439,6 +439,86 @@ class Body:
         return [l for l, ns in self.varnames.items() if name in ns]
 
 
+def all_places(body):
+    """every place mentioned in the body: yields (block, place, how) with how in
+    'read' | 'write' | 'ref' | 'refmut' | 'arg' | 'switch' | 'drop'"""
+    def ops(op, b, how):
+        p = op_place(op)
+        if p is not None:
+            yield b, p, how
+    for b, blk in enumerate(body.blocks):
+        for st in blk["stmts"]:
+            if st["k"] != "assign":
+                continue
+            yield b, st["lhs"], "write"
+            rv = st["rv"]
+            k = rv["k"]
+            if k in ("use", "cast", "repeat"):
+                yield from ops(rv["op"], b, "read")
+            elif k in ("ref", "rawptr"):
+                yield b, rv["pl"], "refmut" if rv.get("mut") else "ref"
+            elif k == "discr":
+                yield b, rv["pl"], "read"
+            elif k == "bin":
+                yield from ops(rv["a"], b, "read")
+                yield from ops(rv["b"], b, "read")
+            elif k == "un":
+                yield from ops(rv["a"], b, "read")
+            elif k == "agg":
+                for o in rv["ops"]:
+                    yield from ops(o, b, "read")
+        t = blk["term"]
+        if t["k"] == "call":
+            for a in t["args"]:
+                yield from ops(a, b, "arg")
+            yield b, t["dest"], "write"
+        elif t["k"] == "switch":
+            yield from ops(t["op"], b, "switch")
+        elif t["k"] == "drop":
+            yield b, t["pl"], "drop"
+        elif t["k"] == "assert":
+            yield from ops(t["cond"], b, "read")
+
+
+def fields_read(body):
+    """names of all fields that appear in a projection of any place that is read"""
+    out = set()
+    for b, p, how in all_places(body):
+        if how != "write":
+            out.update(proj_fields(p))
+        else:
+            out.update(proj_fields(p)[:-1])
+    return out
+
+
+def back_edges(body, kinds="n"):
+    """(u, v) with v dominating u"""
+    res = []
+    for u, ss in enumerate(body.succ(kinds)):
+        for v in ss:
+            if body.dominators(kinds)[u] is not None and body.dominates(v, u, kinds):
+                res.append((u, v))
+    return res
+
+
+def loop_headers(body, kinds="n"):
+    return sorted({v for _, v in back_edges(body, kinds)})
+
+
+def natural_loop(body, header, kinds="n"):
+    """blocks of the natural loop(s) with this header"""
+    blocks = {header}
+    stack = [u for u, v in back_edges(body, kinds) if v == header]
+    pred = body.pred(kinds)
+    while stack:
+        b = stack.pop()
+        if b in blocks:
+            continue
+        blocks.add(b)
+        stack.extend(pred[b])
+    return blocks
+
+
 # transparent callees for provenance: result derives from the listed arg indices
 TRANSPARENT = [
     ("re:(^|[ :])Deref>::deref$", (0,)),
